@@ -5,6 +5,7 @@ package main
 
 import (
 	"fmt"
+	"go/token"
 	"go/types"
 	"sort"
 	"strings"
@@ -224,6 +225,18 @@ type ReaperAppend struct {
 	Elem   *Term  // the appended node term
 	Key    string // obligation key
 	Force  bool
+	// Extra: for a node handed to a collector method (`list.add(node)`), the condition under which
+	// the method really appends it (read in the method with its receiver bound)
+	Extra *Formula
+}
+
+// PC: the condition under which the node is put on the deletion list.
+func (ra ReaperAppend) PC() *Formula {
+	pc := ra.Ctx.PC(ra.Site.Call)
+	if ra.Extra != nil {
+		pc = And(pc, ra.Extra)
+	}
+	return pc
 }
 
 // deletionFlow establishes (emitting obligations under rule): the cloud/k8s delete calls sit in
@@ -310,6 +323,17 @@ func (ck *Check) deletionFlow(rule string) []ReaperAppend {
 			arg := call.Common().Args[idx]
 			pr := sliceProv(arg)
 			key := ck.P.siteKey(call)
+			// the list kept in a field of a local collector (`toBeDeleted := reapList{…}; toBeDeleted.add(n);
+			// TryDeleteNodes(…, toBeDeleted.nodes)`): the appends are the collector's method calls
+			if ras, ok := ck.collectorAppends(reaper, ctx, arg); ok {
+				ck.ok(rule, key+"/sources", ck.P.instrPos(call), funcID(reaper), "the list passed to the delete step is built only by appends inside the reaper", fmt.Sprintf("%d calls of the collector's method", len(ras)))
+				for i := range ras {
+					ras[i].Force = reaper == a.ForceReaper
+					ras[i].Key = fmt.Sprintf("%s/append#%d", funcID(reaper), i)
+				}
+				out = append(out, ras...)
+				continue
+			}
 			if len(pr.Roots) > 0 {
 				ck.fail(rule, key+"/sources", ck.P.instrPos(call), funcID(reaper), "the list passed to the delete step is built only by appends inside the reaper", provString(ck.P, pr),
 					"nodes reach the delete step without passing the reaper's per-node guard")
@@ -428,4 +452,143 @@ func (ck *Check) findInvokeChain(chain []*ssa.Function, recv *Term, method strin
 		}
 	}
 	return nil
+}
+
+// collectorAppends: arg is the load of a slice field of a local structure of the reaper whose only
+// writers are (a) the literal the local is initialised with, which leaves the field nil, and (b)
+// calls of a repo method with the local's address as receiver that does
+// `r.f = append(r.f, <its node parameter>)` and writes nothing else. Each such call is an append
+// site: the node is the call's argument, the condition the call's path condition together with
+// the method's own condition on the append.
+func (ck *Check) collectorAppends(reaper *ssa.Function, ctx *Ctx, arg ssa.Value) ([]ReaperAppend, bool) {
+	ld, ok := arg.(*ssa.UnOp)
+	if !ok || ld.Op != token.MUL {
+		return nil, false
+	}
+	fa, ok := ld.X.(*ssa.FieldAddr)
+	if !ok {
+		return nil, false
+	}
+	local, ok := fa.X.(*ssa.Alloc)
+	if !ok || local.Referrers() == nil {
+		return nil, false
+	}
+	var out []ReaperAppend
+	for _, r := range *local.Referrers() {
+		switch x := r.(type) {
+		case *ssa.DebugRef:
+		case *ssa.FieldAddr:
+			for _, rr := range *x.Referrers() {
+				switch y := rr.(type) {
+				case *ssa.DebugRef:
+				case *ssa.UnOp:
+					if y.Op != token.MUL {
+						return nil, false
+					}
+				case *ssa.Store:
+					if y.Addr != ssa.Value(x) {
+						return nil, false
+					}
+					if x.Field == fa.Field {
+						if k, isK := y.Val.(*ssa.Const); !isK || !k.IsNil() {
+							return nil, false // the list is written directly: not a pure collector
+						}
+					}
+				default:
+					return nil, false
+				}
+			}
+		case *ssa.Store:
+			// a whole-value initialisation with the zero value only
+			if x.Addr != ssa.Value(local) {
+				return nil, false
+			}
+			if k, isK := x.Val.(*ssa.Const); !isK || k.Value != nil {
+				return nil, false
+			}
+		case *ssa.Call:
+			m := x.Common().StaticCallee()
+			if m == nil || !ck.P.inRepo(m) || m.Blocks == nil || len(x.Common().Args) == 0 || x.Common().Args[0] != ssa.Value(local) || len(loopsOf(m)) != 0 {
+				return nil, false
+			}
+			fields, okW := handedToFieldWriter(x, local)
+			if !okW {
+				return nil, false
+			}
+			writesList := false
+			for _, f := range fields {
+				if f != fa.Field {
+					return nil, false
+				}
+				writesList = true
+			}
+			if !writesList {
+				continue // a reader
+			}
+			args := make([]*Term, len(x.Common().Args))
+			for i, av := range x.Common().Args {
+				args[i] = ctx.Term(av)
+			}
+			ch := ctx.child(m, x, args)
+			ch.depth = 0
+			// in the method: every store to the field is append(old, <one parameter>)
+			extra := FFalse
+			var elemArg ssa.Value
+			for _, b := range m.Blocks {
+				for _, in := range b.Instrs {
+					st, isSt := in.(*ssa.Store)
+					if !isSt {
+						continue
+					}
+					mfa, isFA := st.Addr.(*ssa.FieldAddr)
+					if !isFA || mfa.X != ssa.Value(m.Params[0]) || mfa.Field != fa.Field {
+						continue
+					}
+					pr := sliceProv(st.Val)
+					if len(pr.Appends) != 1 || pr.Appends[0].Spread != nil || len(pr.Appends[0].Elems) != 1 || len(pr.Roots) != 1 {
+						return nil, false
+					}
+					old, isLoad := pr.Roots[0].(*ssa.UnOp)
+					if !isLoad || !sameFieldAddr(old.X, st.Addr) {
+						return nil, false
+					}
+					prm, isPrm := pr.Appends[0].Elems[0].(*ssa.Parameter)
+					if !isPrm {
+						return nil, false
+					}
+					for i, q := range m.Params {
+						if q == prm && i < len(x.Common().Args) {
+							elemArg = x.Common().Args[i]
+						}
+					}
+					extra = Or(extra, ch.PC(st))
+				}
+			}
+			if elemArg == nil {
+				return nil, false
+			}
+			// what the method reads of the collector's other fields is what the reaper stored there
+			lt := ctx.Term(local)
+			if pos, okp := ctx.fi.pos[x]; okp {
+				extra = extra.Subst(func(at *Term) *Formula {
+					if at.Kind == "field" && len(at.Args) == 1 && at.Args[0].Key() == lt.Key() {
+						if st := derefStruct(local.Type()); st != nil {
+							for i := 0; i < st.NumFields(); i++ {
+								if st.Field(i) == at.Obj && i != fa.Field {
+									if mv := ctx.memAt(local, []int{i}, pos[0], pos[1], st.Field(i).Type()); mv != nil {
+										return termFormula(mv)
+									}
+								}
+							}
+						}
+					}
+					return nil
+				})
+			}
+			out = append(out, ReaperAppend{Reaper: reaper, Ctx: ctx, Site: AppendSite{Call: x, Elems: []ssa.Value{elemArg}}, Elem: ctx.Term(elemArg), Extra: extra})
+		default:
+			return nil, false
+		}
+	}
+	return out, len(out) > 0
 }
